@@ -402,7 +402,9 @@ func (r *runner) flag(s string) {
 	}
 }
 
-func (r *runner) monitored() bool { return r.class == "uni" || r.class == "bidir" }
+func (r *runner) monitored() bool {
+	return r.class == "uni" || r.class == "bidir" || r.class == "stall"
+}
 
 func (r *runner) onCompletion(w int, got *PM) {
 	if got.Kind != "MigRsp" {
@@ -537,6 +539,10 @@ func generate(rng *vh.Rng, idx int) Case {
 		c.Class = "hostile"
 	case idx%10 == 4:
 		c.Class = "odd"
+	case idx%10 == 6:
+		// 3-5 requests back to back to one controller while the command processor does
+		// not take completions from the control port for a long stretch
+		c.Class = "stall"
 	case idx%3 == 1:
 		c.Class = "bidir"
 	default:
@@ -550,6 +556,9 @@ func generate(rng *vh.Rng, idx int) Case {
 	if idx%50 == 7 {
 		maxChunks = 256
 	}
+	if c.Class == "stall" {
+		maxChunks = 1 + rng.Intn(3)
+	}
 	half := 1024
 	for half < 2*64*maxChunks {
 		half *= 2
@@ -560,6 +569,9 @@ func generate(rng *vh.Rng, idx int) Case {
 	nreq := 1 + rng.Intn(3)
 	if maxChunks >= 64 {
 		nreq = 1
+	}
+	if c.Class == "stall" {
+		nreq = 3 + rng.Intn(3)
 	}
 	mk := func(w, j int) plan {
 		chunks := maxChunks
@@ -624,6 +636,9 @@ func generate(rng *vh.Rng, idx int) Case {
 	if c.Class == "hostile" {
 		wt[8] = 1
 	}
+	if c.Class == "stall" {
+		wt[6], wt[7] = 10, 0 // requests eagerly, completions never taken in the random phase
+	}
 	nrand := 60 + 45*c.Chunks
 	if nrand > 9000 {
 		nrand = 9000
@@ -680,63 +695,73 @@ func generate(rng *vh.Rng, idx int) Case {
 			next[w]++
 		}
 	}
-	// fair drain: everything that is enabled is done, in a fixed order
-	for round := 0; round < 40+30*c.Chunks && !crashed; round++ {
-		busy := false
-		do := func(e Event) Event {
-			if crashed {
-				return e
+	// fair drain: everything that is enabled is done, in a fixed order; with
+	// takeCtrl=false the command processor leaves completions in the control port
+	drain := func(takeCtrl bool) {
+		c.Quiescent = false
+		for round := 0; round < 40+30*c.Chunks && !crashed; round++ {
+			busy := false
+			do := func(e Event) Event {
+				if crashed {
+					return e
+				}
+				var d Event
+				d, crashed = r.run1(&c, e)
+				return d
 			}
-			var d Event
-			d, crashed = r.run1(&c, e)
-			return d
-		}
-		for w := 0; w < 2 && !crashed; w++ {
-			if next[w] < len(byW[w]) {
-				m := byW[w][next[w]]
-				if d := do(Event{E: "cr", W: w, Msg: &m}); d.Acc != nil && *d.Acc {
-					next[w]++
+			for w := 0; w < 2 && !crashed; w++ {
+				if next[w] < len(byW[w]) {
+					m := byW[w][next[w]]
+					if d := do(Event{E: "cr", W: w, Msg: &m}); d.Acc != nil && *d.Acc {
+						next[w]++
+						busy = true
+					}
+				}
+				if d := do(Event{E: "tick", W: w}); d.Progress != nil && *d.Progress {
 					busy = true
 				}
-			}
-			if d := do(Event{E: "tick", W: w}); d.Progress != nil && *d.Progress {
-				busy = true
-			}
-			if d := do(Event{E: "sr", W: w}); d.Got != nil {
-				busy = true
-			}
-			for k := 0; k < len(r.net) && !crashed; {
-				if !r.deliverable(r.net[k]) {
-					k++
-					continue
-				}
-				if d := do(Event{E: "dr", K: k}); d.Acc != nil && *d.Acc {
-					busy = true
-				} else {
-					k++
-				}
-			}
-			if d := do(Event{E: "sl", W: w}); d.Got != nil {
-				busy = true
-			}
-			for len(r.mq[w]) > 0 && !crashed {
-				do(Event{E: "ms", W: w, K: 0})
-				busy = true
-			}
-			if len(r.mr[w]) > 0 && r.loc[w].PeekIncoming() == nil {
-				if d := do(Event{E: "dl", W: w, K: 0}); d.Acc != nil && *d.Acc {
+				if d := do(Event{E: "sr", W: w}); d.Got != nil {
 					busy = true
 				}
+				for k := 0; k < len(r.net) && !crashed; {
+					if !r.deliverable(r.net[k]) {
+						k++
+						continue
+					}
+					if d := do(Event{E: "dr", K: k}); d.Acc != nil && *d.Acc {
+						busy = true
+					} else {
+						k++
+					}
+				}
+				if d := do(Event{E: "sl", W: w}); d.Got != nil {
+					busy = true
+				}
+				for len(r.mq[w]) > 0 && !crashed {
+					do(Event{E: "ms", W: w, K: 0})
+					busy = true
+				}
+				if len(r.mr[w]) > 0 && r.loc[w].PeekIncoming() == nil {
+					if d := do(Event{E: "dl", W: w, K: 0}); d.Acc != nil && *d.Acc {
+						busy = true
+					}
+				}
+				if takeCtrl {
+					if d := do(Event{E: "tc", W: w}); d.Got != nil {
+						busy = true
+					}
+				}
 			}
-			if d := do(Event{E: "tc", W: w}); d.Got != nil {
-				busy = true
+			if !busy {
+				c.Quiescent = true
+				break
 			}
-		}
-		if !busy {
-			c.Quiescent = true
-			break
 		}
 	}
+	if c.Class == "stall" {
+		drain(false)
+	}
+	drain(true)
 	finish(&c, r, crashed)
 	return c
 }
@@ -792,11 +817,10 @@ func replay(in Case) Case {
 	return c
 }
 
-
 // ---- driver side: Driver.preparePageForMigration through the verif hook ----
 
 type DPage struct {
-	PID, PAddr, VAddr, Size, Device  uint64
+	PID, PAddr, VAddr, Size, Device   uint64
 	Valid, Unified, Migrating, Pinned bool
 }
 
